@@ -136,6 +136,17 @@ def _history(spec, model):
     import pandas
     import pygaps
     from pgv.checks import c05
+    if spec['case'] == 'column_order':
+        import pygaps.parsing as pgp
+        base_cols = {'pressure': [0.1, 0.2, 0.3, 0.25], 'loading': [1.0, 2.0, 3.0, 2.5]}
+        extra = {'temperature_cell': [77.1, 77.2, 77.3, 77.2], 'enthalpy': [9.0, 8.0, 7.0, 7.5], 'dose': [1.0, 2.0, 3.0, 4.0]}
+        meta = dict(c05._mk('base').to_dict())
+        ids = {}
+        for order in (('temperature_cell', 'enthalpy', 'dose'), ('dose', 'enthalpy', 'temperature_cell')):
+            iso = pygaps.PointIsotherm(isotherm_data=pandas.DataFrame({**base_cols, **{c: extra[c] for c in order}}), pressure_key='pressure', loading_key='loading', **meta)
+            ids['+'.join(order)] = iso.iso_id
+            ids['+'.join(order) + ' (parsed JSON export)'] = pgp.isotherm_from_json(iso.to_json()).iso_id
+        return {'confirmed': len(set(ids.values())) != 1, 'observed': ids, 'expected': 'one identifier'}
     if spec['case'] == 'read_then_convert':
         used, fresh = c05._mk('point'), c05._mk('point')
         used.iso_id
